@@ -20,11 +20,12 @@ LEVEL_TEXT = ("Coq theorems over an exact-rational model of the criterion famili
               "contribution vector (a mean when the contributions sum to one, the plain mean when they are uniform, not the plain mean for a three-way cross); the allele-availability thresholds are modelled bit-exactly in binary64 (one correctly rounded "
               "division count/(ploidy*k)) and proved equal to the count-based definition for every selection of up to 2^53 chromosome copies "
               "and every target frequency in [0,1] (through Flocq); the former code (rounded reciprocal, tmajor computed with the tminor test) "
-              "is refuted on separately named old_ definitions as a regression witness. The model is tied to the code by evaluating it inside "
+              "is refuted on separately named old_ definitions as a regression witness; so is the former caching of the target flags in the tfreq setter (old_pau_stale / old_mogs_stale), "
+              "while the current code is proved to answer a call after an in-place update of the target array from the current targets, after any history, and that answer is the count-based definition. The model is tied to the code by evaluating it inside "
               "Coq against latentfn/evalfn/evaluate/nlatent of all 61 evaluable concrete problem classes on generated data. "
               "Kernel expressions regenerated from the source on every run (Gen/C05_Kernel.v, 173 definitions: guard and normalisation of all 39 "
               "vector-encoded latent functions, sign / 1/k coefficient of every linear, quadratic, L1 and family body, order of the latent blocks, the "
-              "binary64 frequency quotient with its threshold and flag algebra for PAU/MOGS and what the tfreq setter stores in which flag, OPV / "
+              "binary64 frequency quotient with its threshold and flag algebra for PAU/MOGS and what each target-flag property computes on access (the tfreq setter may store the array only), OPV / "
               "genotype-builder coefficients and slice, evalfn, the transformations of trans.py, the usefulness-criterion formula, the accumulate-and-divide "
               "loop of the EMBV problems and the replicate buffer / loop count / progeny count of the EMBV matrix factory) are proved equal to the model's "
               "expressions, and the availability, scale-invariance and guard-boundary theorems are restated about the generated definitions, so a changed "
@@ -39,9 +40,7 @@ LEVEL_NOTE = ("trusted: Coq kernel + vm_compute, PrimFloat primitives; BLAS/nump
               "Coq model too; the expected-maximum-breeding-value factories are compared with the definition (mean over exactly the replicates drawn of "
               "the maximum over the progeny of the replicate) on the progeny the library itself simulated, which the harness records at the library's call of "
               "dense_dh / MatingProtocol.mate (that those progeny are Mendelian is only checked allele-wise here; meiosis is C01/C02); the kernel translator "
-              "(harness/translate/c05_kernel.py on top of pyexpr) is trusted and fails closed; the flags the PAU / MOGS tfreq setters store are not refreshed by an "
-              "in-place update of the target array (known finding C05-tfreq-inplace-stale-flags: modelled as coded, refuted, proved under the exact guard 'no target changes "
-              "its class'); the |sum x| < 1e-10 guard of the real-encoded classes stays a known finding (design decision of the library); "
+              "(harness/translate/c05_kernel.py on top of pyexpr) is trusted and fails closed; the |sum x| < 1e-10 guard of the real-encoded classes stays a known finding (design decision of the library); "
               "the binary64 division theorem rests on Flocq's PrimFloat bridge (classical reals); simulation-based problems (look-ahead) are out of scope")
 TECHNIQUE = "Coq proof over an executable rational/binary64 model; in-Coq vm_compute correspondence with the implementation; exact-rational predicate"
 RULE = ("case = (criterion family, candidate data on a dyadic grid, selected multiset s, listing permutation, positive scale a, free real / "
@@ -381,9 +380,16 @@ def _lifecycle(case, out, ps, pr, xs, xr):
     if pr is not None: out["inplace_real"] = _lat(pr, xr)
     # (4b) in-place update of the target array (allele-frequency families)
     if "tf3" in case:
-        def tf_inplace(): ps.tfreq[...] = numpy.array(case["tf3"], dtype=float)
+        def tf_inplace():
+            for prob in (ps, pr):
+                if prob is not None: prob.tfreq[...] = numpy.array(case["tf3"], dtype=float)
         out["tf3_set"] = _try(tf_inplace)
         out["tf3_sub"] = _lat(ps, xs)
+        if pr is not None: out["tf3_real"] = _lat(pr, xr)
+        if fam in ("pau", "pafd"):
+            out["tf3_tflags"] = _try(lambda: {nm: numpy.asarray(getattr(ps, nm)).astype(int).tolist() for nm in ("tminor", "thet", "tmajor")})
+        if fam == "mogs":
+            out["tf3_tflags"] = _try(lambda: {nm: numpy.asarray(getattr(ps, "tfreq_fix_" + nm)).astype(int).tolist() for nm in ("minor", "heter", "major")})
     # (5)
     dsc = scaled_data(fam, d, case["sc"])
     if dsc is not None:
@@ -647,13 +653,10 @@ def _evalfn_ok(ev, x, lat, got):
         if gl is None or len(gl) != len(want) or not all(_close(a, b) for a, b in zip(gl, want)): return False
     return True
 
-STALE_TF = "after an in-place update of the target array the latent vector != definition on the current targets (the flags stored by the tfreq setter are stale)"
-
-def _tf_class_changes(fam, tf_set, tf_now):
-    """does some target leave its class (the classes the stored flags encode)?"""
-    if fam == "mogs": cls = lambda v: (v <= 0, v >= 1)
-    else: cls = lambda v: (v == 0, 0 < v < 1, v == 1)
-    return any(cls(a) != cls(b) for ra, rb in zip(tf_set, tf_now) for a, b in zip(ra, rb))
+STALE_TF = "after an in-place update of the target array the latent vector != definition on the current targets (stale target flags)"
+TF3_FLAGS = {"pau": (("tminor", lambda v: v == 0), ("thet", lambda v: 0 < v < 1), ("tmajor", lambda v: v == 1)),
+             "mogs": (("minor", lambda v: v <= 0), ("heter", lambda v: 0 < v < 1), ("major", lambda v: v >= 1))}
+TF3_FLAGS["pafd"] = TF3_FLAGS["pau"]
 
 def _pred_lifecycle(case, out, c, sub):
     if "data2" not in case: return []
@@ -682,6 +685,12 @@ def _pred_lifecycle(case, out, c, sub):
     if "tf3" in case:
         d4 = dict(d3, tfreq=case["tf3"])
         if not _match(_frl(out["tf3_sub"]), defn(fam, d4, c, s)): bad.append(STALE_TF)
+        if "tf3_real" in out and tot > 0 and not (fam in GUARDED and tot < F(EPS)):
+            if not _match(_frl(out["tf3_real"]), defn(fam, d4, cw, mem)): bad.append(STALE_TF + " (real encoding)")
+        if "tf3_tflags" in out:
+            for nm, test in TF3_FLAGS[fam]:
+                if not isinstance(out["tf3_tflags"], dict) or out["tf3_tflags"].get(nm) != [[int(test(v)) for v in r] for r in case["tf3"]]:
+                    bad.append("%s flags after an in-place update of the target array != their definition on the current targets" % nm)
     if "sc_sub" in out:
         sc = F(2) ** case["sc"]; comps = scaled_components(fam, d)
         for key, base in (("sc_sub", out["sub"]), ("sc_real", out.get("xr"))):
@@ -849,13 +858,15 @@ def emit_latent(case, out):
         if dsc is not None:
             parts.append("(let fd := %s in agree %s %s (latent n fd %s))" % (emit_fdata(fam, dsc), ex_sub, _oimpl(out["sc_sub"]), sub))
         if "tf3" in case and not isinstance(out.get("tf3_set"), dict):
-            # the code as it is: flags of the targets at the setter (data2), distances to the targets written in place afterwards
-            com = "%s %s %s %s %s %d %d %s" % (E.z(d3["ploidy"]), E.lst2(d3["geno"], E.z), _ql2(d3["mkrwt"]), _ql2(d3["tfreq"]), _ql2(case["tf3"]),
-                                               len(d3["mkrwt"]), len(d3["mkrwt"][0]), _natl(s))
-            if fam == "pafd":
-                parts.append("(let fd := %s in agree false %s (latent n fd %s))" % (emit_fdata(fam, dict(d3, tfreq=case["tf3"])), _oimpl(out["tf3_sub"]), sub))
-            else:
-                parts.append("agree false %s (Some (map Ex (%s %s)))" % (_oimpl(out["tf3_sub"]), "pau_stale" if fam == "pau" else "mogs_stale", com))
+            # the code as it is: every flag is computed from the array held, so the call answers for the data with the targets
+            # written in place (set_targets of the model), whatever the targets were when the setter ran (d3)
+            fd3 = "(set_targets %s (%s))" % (_ql2(case["tf3"]), emit_fdata(fam, d3))
+            parts.append("(let fd := %s in agree false %s (latent n fd %s))" % (fd3, _oimpl(out["tf3_sub"]), sub))
+            if "tf3_real" in out:
+                parts.append("(let fd := %s in agree false %s (latent n fd (DVec %s)))" % (fd3, _oimpl(out["tf3_real"]), _ql(case["xr"])))
+            if fam in ("pau", "pafd") and isinstance(out.get("tf3_tflags"), dict):
+                for nm, fn in (("tminor", "t_minor"), ("thet", "t_het"), ("tmajor", "t_major")):
+                    parts.append("list_eqb bl_eqb %s (map (map %s) %s)" % (E.lst2([[bool(v) for v in r] for r in out["tf3_tflags"][nm]], E.b), fn, _ql2(case["tf3"])))
     if fam not in SUBSET_ONLY:
         a = case["a"]
         vec = lambda x: "(DVec %s)" % _ql(x)
@@ -1538,8 +1549,6 @@ def classify(case, out, clauses):
     Only the 1e-10 guard is still a known finding; everything else that fails is a violation."""
     if not clauses or case["kind"] != "latent": return None
     fam = case["fam"]
-    if fam in ("pau", "mogs") and "tf3" in case and all(c == STALE_TF for c in clauses) and _tf_class_changes(fam, case["data2"]["tfreq"], case["tf3"]):
-        return "C05-tfreq-inplace-stale-flags"
     if fam in GUARDED:
         tot = sum(case["xr"]); a = case["a"]
         ins, ins_a = 0 < tot < EPS, 0 < a * tot < EPS
